@@ -13,7 +13,7 @@ CLAIMS = {
    note="Decides the crash/typing/termination clauses, not 'bounded time' quantitatively nor panics inside the generated matcher's buffer indexing (relies on the end-symbol sentinel, compared as boilerplate), out-of-memory or stack depth for pathological nesting. Trusted: go/ssa, the PEG reader and the abstract stack interpreter in /verif/checker.", ref="§3.D, §3.E, §4 C02"),
  "C03": dict(cat="other", tech="static analysis: inductive postcondition over the retrieve family (go/ssa dominators), type-assertion / nil-guard / interface-equality inventories, size-change termination, zone abstract interpretation of subscripts",
    text="Structural: a retrieve-family function that returns a nil error has made its sink non-empty (so success is never empty and result[0] reads are in range); the only types ever converted to the runtime-error interface are the three documented ones and ErrorFunctionFailed is built only on the failure branch of a user-function call; no explicit panic, no unguarded reflect.TypeOf(nil).String(), no unchecked assertion on caller data outside validated comparator operands; recursion descends, loops are bounded; subscript arithmetic cannot overflow or leave [0,len).",
-   note="Partly decided since: left[index]/right[index] in AND/OR/NOT are only reached on paths where both lists are known not to be one-element lists, and X[0] only under len(X)==1 (V-BOOL); rightValues[0] is read after validation of its list succeeded (V-VALIDATED); a comparison of two per-member operands cannot be built (V-TWO-CURRENT). Still assumed: that every computed list has length 1 or the member count (valueList[0] in the filter). Time bounds beyond termination are not decided.", ref="§3.E, §3.F, §3.G, §4 C03"),
+   note="Partly decided since: left[index]/right[index] in AND/OR/NOT are only reached on paths where both lists are known not to be one-element lists, and X[0] only under len(X)==1 (V-BOOL); rightValues[0] is read after validation of its list succeeded (V-VALIDATED); a comparison of two per-member operands cannot be built (V-TWO-CURRENT). Every verdict list has length 1 or the member count (L-CLASS, inductive over the query family) and the filter reads result[0] only where the length differs from the member count. Time bounds beyond termination are not decided.", ref="§3.E, §3.F, §3.G, §4 C03"),
  "C04": dict(cat="proof", tech="static analysis: whole-package Andersen points-to + write-effect analysis over go/ssa",
    text="Absence of an effect: every instruction reachable from the evaluation closure that can write memory (store, map update, append, copy, delete, clear, writing library call) is an obligation; it is discharged when the points-to set of the written cells contains no object of the caller's document (or of a value returned by a user function). All obligations are discharged on every run; plus: library calls that receive document memory are tabled read-only, and the accessor Set closures are unreachable from any library entry point. This covers every path, document and call history, which is why it can be claimed as a proof rather than a sampled check.",
    note="Trusted base: go/types+go/ssa (x/tools v0.29.0), the ~1.3 kLOC regions engine, the library-call effect table, absence of unsafe/cgo/linkname/reflect mutation (checked each run). User functions and explicit Accessor.Set calls are outside the claim by the property's own wording.", ref="§3.A, §4 C04"),
